@@ -579,6 +579,75 @@ func runC02(c *ctx) {
 			c.Violation("C02/sml-sourced/bytes-differ", fmt.Sprintf("%s encodes to %x, the pattern nearest to the decimal is %x", src, clipB(got), want), c02Case{Op: "sml", Wire: src})
 		}
 	})
+	// float items built from integer Go values of every type, up to the extremes (the pattern is that of the number given)
+	{
+		u64 := []uint64{0, 1, 1<<24 + 1, 1<<53 + 1, 1 << 63, 1<<63 + 1<<11, math.MaxUint64, math.MaxInt64, 1 << 62}
+		i64 := []int64{-1, math.MinInt64, math.MinInt64 + 1, -(1<<53 + 1), math.MaxInt64, 1<<24 + 1}
+		for _, k := range []ref.Kind{ref.F4, ref.F8} {
+			check := func(arg interface{}, f float64) {
+				var want []byte
+				if k == ref.F4 {
+					want = ref.Encode(&ref.Item{Kind: k, Slots: []ref.Slot{{Uint: uint64(math.Float32bits(float32(f)))}}})
+				} else {
+					want = ref.Encode(&ref.Item{Kind: k, Slots: []ref.Slot{{Uint: math.Float64bits(f)}}})
+				}
+				var got, got2 []byte
+				o := real.Try(func() {
+					got = real.Factory(k, arg).ToBytes()
+					got2 = real.Factory(k, "v").FillVariables(map[string]interface{}{"v": arg}).ToBytes()
+				})
+				c.NoteBulk(1, 1)
+				c.Class("item/float-from-integer-values")
+				if o.Panicked {
+					return // C12 decides which integer types the float factory takes
+				}
+				if k == ref.F4 && float64(float32(f)) != f {
+					return // two roundings are possible for an F4 built from a wide integer: C12's subject
+				}
+				if !bytes.Equal(got, want) || !bytes.Equal(got2, want) {
+					c.Violation("C02/item/float-from-integer/"+k.String(), fmt.Sprintf("%s from %T(%v): factory %x, fill %x, the number's pattern is %x", k, arg, arg, got, got2, want), c02Case{Op: "floatint", Bits: math.Float64bits(f)})
+				}
+			}
+			for _, v := range u64 {
+				check(v, float64(v))
+				check(uint(v), float64(v))
+			}
+			for _, v := range i64 {
+				check(v, float64(v))
+				check(int(v), float64(v))
+			}
+			check(uint32(math.MaxUint32), float64(math.MaxUint32))
+			check(int32(math.MinInt32), float64(math.MinInt32))
+		}
+	}
+	// message headers that reach the encoder through the SML parser, keyword glued to what follows it
+	for _, c2 := range []struct {
+		text string
+		w    int
+		ok   bool
+	}{
+		{"S1F13 W// comment\n<U1 1> .", 1, true}, {"S1F13 W//c\n.", 1, true}, {"S1F13 W.", 1, true}, {"S1F13 W<U1 1>.", 1, true},
+		{"S1F13 w H->E// c\n<U1 1> .", 1, true}, {"S1F13 H->E//c\n<U1 1>.", 0, true}, {"S1F13 W\t// c\r\n<U1 1> .", 1, true},
+		{"S1F13 [W]// comment\n<U1 1> .", 2, false}, {"S1F13 [W].", 2, false}, {"S1F14// c\n<U1 1> .", 0, true},
+	} {
+		msgs, errs, _, o := smlParse(c2.text)
+		c.NoteBulk(1, 1)
+		c.Class("msg/sml-sourced-header-glued-to-a-comment")
+		if o.Panicked || len(errs) > 0 || len(msgs) != 1 {
+			continue // whether the spelling is accepted is C08's subject
+		}
+		var got []byte
+		real.Try(func() { got = msgs[0].SetSessionIDAndSystemBytes(258, []byte{1, 2, 3, 4}).ToBytes() })
+		if !c2.ok {
+			if len(got) != 0 {
+				c.Violation("C02/sml-sourced/partial-bytes-for-optional-wait-bit", fmt.Sprintf("%q encodes to %x (the wait bit is optional)", c2.text, got), c02Case{Op: "sml", Wire: c2.text})
+			}
+			continue
+		}
+		if len(got) < 14 || got[6]&0x80 != byte(c2.w)<<7 || got[6]&0x7F != 1 {
+			c.Violation("C02/sml-sourced/header-byte-2", fmt.Sprintf("%q encodes to %x: W-bit|stream byte should be %02x", c2.text, clipB(got), byte(c2.w)<<7|1), c02Case{Op: "sml", Wire: c2.text})
+		}
+	}
 	// adjacent list elements that are equal except for the sign of a zero, or equal altogether (elements are encoded one
 	// by one, whatever they look like next to each other)
 	for _, k := range []ref.Kind{ref.F4, ref.F8} {
@@ -642,7 +711,7 @@ func runC02(c *ctx) {
 			c.Violation("C02/msg/partial-bytes-for-a-tree-with-an-empty-item", fmt.Sprintf("item bytes %x, message bytes %x", clipB(itemBytes), clipB(msgBytes)), c02Case{Op: "empty-item"})
 		}
 	}
-	c.Required = []string{"empty-item-inside-a-list", "msg/length>=2^24", "msg/session-unset-again", "msg/complete", "msg/+vars", "msg/+optW", "msg/+nosession", "f4/finite-patterns", "f4round/in-range", "f4round/overflow", "lenbytes=3/A", "lenbytes=2/L", "item/decoded-from-another-spelling", "item/derived-by-several-fills", "item/sml-sourced-long-decimal", "item/zero-sign-neighbours"}
+	c.Required = []string{"empty-item-inside-a-list", "msg/length>=2^24", "msg/session-unset-again", "msg/complete", "msg/+vars", "msg/+optW", "msg/+nosession", "f4/finite-patterns", "f4round/in-range", "f4round/overflow", "lenbytes=3/A", "lenbytes=2/L", "item/decoded-from-another-spelling", "item/derived-by-several-fills", "item/sml-sourced-long-decimal", "item/zero-sign-neighbours", "item/float-from-integer-values", "msg/sml-sourced-header-glued-to-a-comment"}
 }
 
 func replayC02(c *ctx, raw json.RawMessage) {
